@@ -57,6 +57,7 @@ type FuncContract struct {
 	Requires []Clause
 	Ensures  []Clause
 	Assumes  []Clause
+	Defines  []Clause // definitional postconditions: assumed by callers, not proved (pure functions defining a spec symbol)
 	Ghosts   []GhostDecl
 	Hooks    []Hook
 	Loops    map[int]*LoopSpec
@@ -189,7 +190,7 @@ func LoadContracts(path string) (*Contracts, error) {
 	cs.NLines = len(raws)
 
 	topKW := map[string]bool{"always": true, "objinv": true, "spec": true, "ufun": true, "axiom": true, "const": true, "field": true, "lockinv": true, "lockorder": true, "func": true, "iface": true, "extern": true}
-	subKW := map[string]bool{"requires": true, "ensures": true, "assumes": true, "ghost": true, "on": true, "loop": true, "tags": true, "flag": true, "modifies": true}
+	subKW := map[string]bool{"defines": true, "requires": true, "ensures": true, "assumes": true, "ghost": true, "on": true, "loop": true, "tags": true, "flag": true, "modifies": true}
 	firstWord := func(s string) string {
 		if i := strings.IndexAny(s, " \t("); i >= 0 {
 			return s[:i]
@@ -402,12 +403,14 @@ func LoadContracts(path string) (*Contracts, error) {
 			return nil, fail(fmt.Errorf("clause outside func/iface block"))
 		}
 		switch w {
-		case "requires", "ensures", "assumes":
+		case "requires", "ensures", "assumes", "defines":
 			c, err := parseClause(rest, it.line)
 			if err != nil {
 				return nil, fail(err)
 			}
 			switch w {
+			case "defines":
+				cur.Defines = append(cur.Defines, c)
 			case "requires":
 				cur.Requires = append(cur.Requires, c)
 			case "ensures":
